@@ -194,6 +194,8 @@ type GhostSet struct {
 }
 
 type Contract struct {
+	RowAssigns   []ast.Expr // assigns_rows: slices whose rows may be written
+	RowAssignSrc []string
 	GhostSets []GhostSet // ghost field updates performed when the function returns
 	Name      string
 	Params    []string // declared parameter names (externs); for module functions names come from SSA
@@ -364,6 +366,21 @@ func (p *Program) parseContractLines(file string, lines []string, lineNos []int,
 					cur.FreshAssigns = append(cur.FreshAssigns, x)
 				}
 			}
+		case "assigns_rows":
+			// slices whose backing rows (and freshly allocated rows) are the only rows of their element
+			// memory the function writes
+			if err := flush(); err != nil {
+				return err
+			}
+			cur.HasAssign = true
+			for _, x := range splitTopLevel(rest) {
+				e, err := parser.ParseExpr(x)
+				if err != nil {
+					return fmt.Errorf("%s:%d: bad assigns_rows %q: %v", file, lineNos[i], x, err)
+				}
+				cur.RowAssigns = append(cur.RowAssigns, e)
+				cur.RowAssignSrc = append(cur.RowAssignSrc, x)
+			}
 		case "ghostset":
 			if err := flush(); err != nil {
 				return err
@@ -520,4 +537,28 @@ func ifaceMethodName(recv types.Type, m *types.Func) string {
 		return "(" + pk + "." + n.Obj().Name() + ")." + m.Name()
 	}
 	return "(" + recv.String() + ")." + m.Name()
+}
+
+func splitTopLevel(s string) []string {
+	var parts []string
+	d := 0
+	cur := strings.Builder{}
+	for _, r := range s {
+		switch r {
+		case '(', '[':
+			d++
+		case ')', ']':
+			d--
+		}
+		if r == ',' && d == 0 {
+			parts = append(parts, strings.TrimSpace(cur.String()))
+			cur.Reset()
+			continue
+		}
+		cur.WriteRune(r)
+	}
+	if strings.TrimSpace(cur.String()) != "" {
+		parts = append(parts, strings.TrimSpace(cur.String()))
+	}
+	return parts
 }
